@@ -12,6 +12,7 @@ from .space import (
     A0,
     DICTS,
     ITER_IMPL,
+    IterOnly,
     Datum,
     MyMapping,
     depth,
@@ -169,6 +170,7 @@ def data_for(ts):  # noqa: C901, PLR0912, PLR0915
             out.append(_wrap(f"[{a[0].name}, {a[1].name}]", lambda a=a: [a[0].fresh(), a[1].fresh()]))
             out.append(_wrap(f"[{a[0].name}, {a[0].name}]", lambda a=a: [a[0].fresh(), a[0].fresh()]))
             out.append(_wrap(f"iter([{a[0].name}, {a[1].name}])", lambda a=a: iter([a[0].fresh(), a[1].fresh()]), True))
+            out.append(_wrap(f"IterOnly([{a[0].name}, {a[1].name}])", lambda a=a: IterOnly([a[0].fresh(), a[1].fresh()])))
         if a and j:
             out.append(_wrap(f"[{a[0].name}, {j[0].name}]", lambda a=a, j=j: [a[0].fresh(), j[0].fresh()]))
             out.append(_wrap(f"[{j[0].name}, {a[0].name}]", lambda a=a, j=j: [j[0].fresh(), a[0].fresh()]))
@@ -223,6 +225,9 @@ def data_for(ts):  # noqa: C901, PLR0912, PLR0915
             out.append(_wrap(nm(base), mk(base)))
             out.append(_wrap("list" + nm(base), mk(base, list)))
             out.append(_wrap("iter" + nm(base), lambda base=base: iter([i.fresh() for i in base]), True))
+            out.append(_wrap("IterOnly" + nm(base), mk(base, IterOnly)))
+            out.append(_wrap("IterOnly" + nm(base[:-1]), mk(base[:-1], IterOnly)))
+            out.append(_wrap("IterOnly" + nm([*base, base[-1]]), mk([*base, base[-1]], IterOnly)))
             out.append(_wrap(nm(base[:-1]), mk(base[:-1])))
             out.append(_wrap(nm([*base, base[-1]]), mk([*base, base[-1]])))
             for i, (t, r) in enumerate(zip(comps, rs)):
